@@ -89,6 +89,10 @@ class Vector:
         """
         self._tree = tree
 
+    # NumPy scalars and arrays on the left of a binary operator must defer to
+    # the reflected operators instead of treating the vector as a sequence
+    __array_ufunc__ = None
+
     def tree_flatten(self):
         return ((self._tree,), None)
 
